@@ -79,4 +79,26 @@ CHECKS = {
             'returns; for MultiplexIterator (owns its pool) it means the pool is shut down and no pool thread is alive'],
         'probes': ['probe:more_sources_than_pool_threads', 'probe:early_stop_with_queued_enqueue_tasks'],
     },
+    'C03': {
+        'families': [['c03:strategy', 1.0]],
+        'runs': {'quick': 16000, 'thorough': 800000},
+        'budget': {'quick': 110, 'thorough': 1500},
+        'level': 'exploration',
+        'rule': ('each evaluation draws a pipeline from the operator grammar (scenarios/pipes.py: assign, apply, '
+                 'select, filter, re-batch, sink, 1-2 aggregates incl. an exact integer one, optional slice) and a '
+                 'dataset, runs it sequentially as one fused stage (reference) and then under one strategy: '
+                 'num_threads 1..4 over a shardable or non-shardable source, a chain of 2-3 named stages (with or '
+                 'without threads), k<=5 shards run concurrently with states merged in a schedule-chosen order, or '
+                 'the in-process interleaved runner; the thread schedule is seeded. Non-trivial = more than two '
+                 'context switches (or a chained run); distinct = distinct event-log digests'),
+        'real': REAL_COMMON + ['asyncio BaseEventLoop core, tasks, run_in_executor, run_coroutine_threadsafe'],
+        'stub': STUB_COMMON + ['asyncio selector/self-pipe/clock -> simkit.aioloop.SimEventLoop'],
+        'assumptions': ASSUME_COMMON + [
+            'for pipelines containing a re-batching operator, under threads/shards/interleaving the unit of '
+            'comparison is the row, not the batch (each worker re-batches its own share by construction)',
+            'float aggregates are compared with 1e-9 relative tolerance (merge order changes rounding); the '
+            'integer aggregate is compared exactly',
+            'a batch-level filter is never generated after a re-batching operator'],
+        'probes': [],
+    },
 }
